@@ -609,7 +609,7 @@ func (a *agg) evaluate(cases []Case, origin string) {
 		var o Outcome
 		if err := json.Unmarshal(out, &o); err == nil && o.WorkerError == "timeout" {
 			// real IAT sleeps with a pathological length table: not a verdict about the property
-			a.r.Count("skipped", "case-abandoned-after-300s")
+			a.r.Count("skipped", "case-abandoned-after-150s")
 			fmt.Fprintf(os.Stderr, "case %s abandoned after the job timeout\n", cases[i].Name)
 			if a.r.ReplayDir != "" {
 				os.MkdirAll(a.r.ReplayDir, 0o755)
